@@ -65,13 +65,13 @@ fn plan_base(prop: &str, tier: &str, h: &dyn Fn(u32, u32) -> PartPlan) -> Vec<Pa
             b.env = vec![("MELDA_ARRAYDESCRIPTORS_CACHE_CAP".to_string(), "1".to_string()), ("MELDA_DATA_CACHE_CAP".to_string(), "1".to_string())];
             vec![if t { pp("damage", 16, 64000 / 16) } else { pp("damage", 16, 8000 / 16) }, b]
         }
-        "C11" => vec![h(12000, 256000)],
+        "C11" => vec![h(12000, 256000), if t { pp("stacks", 16, 6400 / 16) } else { pp("stacks", 16, 320 / 16) }],
         "C12" => vec![h(16000, 384000)],
         "C13" => vec![h(12000, 256000)],
         "C14" => vec![h(12000, 256000)],
         "C15" => vec![h(16000, 384000)],
         "C16" => {
-            let mut v = vec![pp("diff-exhaustive", 16, 0)];
+            let mut v = vec![pp("diff-exhaustive", 16, 0), if t { pp("diff-large", 16, 400_000 / 16) } else { pp("diff-large", 16, 24_000 / 16) }];
             for (name, cap) in [("chains-cap1", "1"), ("chains-cap2", "2"), ("chains-cap3", "3"), ("chains-cap16", "16")] {
                 let mut p = pp(name, 4, if t { 100_000 / 4 } else { 6000 / 4 });
                 p.env = vec![("MELDA_ARRAYDESCRIPTORS_CACHE_CAP".to_string(), cap.to_string()), ("MELDA_DATA_CACHE_CAP".to_string(), cap.to_string())];
@@ -134,9 +134,10 @@ pub fn rule(prop: &str, tier: &str) -> String {
         "C17" => v.push("[kv] generated sequences (1-30) of write / full read / in-range non-empty slice read / list(suffix) / reopen over 12 stacks {memory, directory, SQLite file, SQLite in-memory} x {plain, Deflate, Brotli}, each against a write-once map; keys ASCII >=3 chars from stems x extensions incl. .delta .pack .flate .brotli, nested ones, upper/lower-case twins and the characters _ and %; values empty, 1 byte, random and compressible up to 128 KB; 20 list suffixes incl. empty, partial, over-long, upper-case and ones containing _ or %; final reopen + full comparison; non-trivial = a second write to an existing key, a slice read and a list in one sequence. [replica] the same generated two-replica history (rich JSON, commits, meld+refresh, resolve, reopen) on every stack; per-step observations equal to those over plain memory; replicas reopened from their storage equal the live ones; non-trivial = history with a commit and a reopen on a persistent stack".into()),
         "C18" => v.push("[configs] one generated multi-replica history (no raw partial file copies / time travel, whose selectors address block identifiers that legitimately vary per run) is executed in 8 (quick) / 26 (thorough) child processes with RAYON_NUM_THREADS in {1,2,4,16} / 1..16, MELDA_*_CACHE_CAP in {1,2,16}(+3), permuted storage listings, and twice in the same configuration (fresh hash seeds); the per-step digests of (objects, winners, conflicts, document) of every replica and the converged final state must be identical in all runs; non-trivial = history with an update touching >=8 objects or a refresh applying >=3 blocks at once".into()),
         "C07" => v.push("[dual] two replicas brought to a common conflicted state (history + complete exchange) resolve the same object independently, in favour of the same (30 %) or of generated, possibly different, live leaves; both commit; the complete exchange must converge (C01 oracle) and, when both chose the same leaf, the object must not be in conflict afterwards; non-trivial = a dual resolution took place".into()),
+        "C11" => v.push("[stacks] the same invariants observed through Adapter::list_objects / read_object of real backends (memory, memory+Deflate, memory+Brotli, directory+Deflate): generated two-replica histories with rich commit metadata and, in 60 % of the cases, a poorly compressible string of 20-400 KB in the content and in the next commit's metadata; after every operation every listed item must read back, hash to its name (blocks: index rule), never disappear, and have equal bytes on both replicas; finally complete exchange, equal item sets, and both replicas reopen; non-trivial = an item larger than 60 KB was checked".into()),
         "C05" => v.push("[trees] generated (revision,parent) sets: several creations, update/delete/marker children, dangling parents, chains past index 10/100, inserted in 2-6 generated permutations via add and unvalidated_add+validate; RevisionTree leaves/winner vs reference rule; non-trivial = >=2 live leaves and (marker | dangling parent | index>=10). [tree-exhaustive] every shape with <=4 (quick) / <=5 (thorough) nodes x every insertion order".into()),
         "C06" => v.push("[merge-exhaustive] merge_arrays on every ordered pair of duplicate-free sequences (6 symbols/len<=6 quick; 7 symbols/len<=6 thorough) and every triple folded on a base (5/4; 6/4): union exactly once, base order kept, other order kept when the versions agree on common elements; non-trivial = both sides contribute an element or disagree on order".into()),
-        "C16" => v.push("[chains-capN] one replica, chains of 2-40 (60) successive versions of two flattened arrays (insert, remove, rotate, reverse, empty, refill, move across arrays, key removal/re-addition, identical successive edits) with commits, reopens and snapshots interleaved, run in worker processes with MELDA_ARRAYDESCRIPTORS_CACHE_CAP = MELDA_DATA_CACHE_CAP in {1,2,3,16}; read()==submitted after every step and every stored version on the parent chain rebuilt by the reference applier == what was submitted for that revision; non-trivial = chain >=5 with an emptying and refill. [diff-exhaustive] every ordered pair of sequences with repeats over 4 symbols (len<=6 quick, <=7 thorough): apply(make(a,b),a)==b with melda's applier and, after a JSON text round trip, with the reference applier; script empty iff a==b; non-trivial = script with >=2 operations".into()),
+        "C16" => v.push("[chains-capN] one replica, chains of 2-40 (60) successive versions of two flattened arrays (insert, remove, rotate, reverse, empty, refill, bulk fill with 90-150 elements, move across arrays, key removal/re-addition, identical successive edits) with commits, reopens and snapshots interleaved, run in worker processes with MELDA_ARRAYDESCRIPTORS_CACHE_CAP = MELDA_DATA_CACHE_CAP in {1,2,3,16}; read()==submitted after every step and every stored version on the parent chain rebuilt by the reference applier == what was submitted for that revision; non-trivial = chain >=5 with an emptying and refill. [diff-large] generated arrays of length 0-320 (mostly >= 90) over small and large alphabets, the new version derived by 0-12 inserts / removals / moves / block deletions or generated independently: same round-trip oracle; non-trivial = both versions >= 100 elements and different. [diff-exhaustive] every ordered pair of sequences with repeats over 4 symbols (len<=6 quick, <=7 thorough): apply(make(a,b),a)==b with melda's applier and, after a JSON text round trip, with the reference applier; script empty iff a==b; non-trivial = script with >=2 operations".into()),
         "C19" => v.push("[revs] generated revision pools built through the Revision API (creation/update/deletion/marker, chains crossing 9->10, 99->100, 999->1000): purity, new_updated == new(index+1), identifier == reference function of (digest, parent id), print/parse round trip incl. hash, and over generated triples totality/antisymmetry/transitivity/consistency with equality and agreement with the reference order; non-trivial = triple mixing marker+deletion+update or a boundary-crossing chain. [twins] two replicas brought to a common base by a generated history + complete exchange apply the same generated edits independently: winners of every object (revision strings) and states must be equal after each edit, and after commit + exchange no new conflict may exist; non-trivial = the twin edit created new revisions".into()),
         _ => {}
     }
@@ -161,11 +162,13 @@ pub fn run_part(prop: &str, part: &str, tier: &str, cases: u32, seed: u64, _shar
             runner::drive(&name, prop, crate::c16::strategy(tier == "thorough"), cases, seed, |c| crate::c16::run(c))
         }
         "fuzz" => crate::fuzzrun::run(prop, cases, seed, _shard),
+        "diff-large" => runner::drive("diff-large", prop, crate::unit::bigdiff_strategy(), cases, seed, crate::unit::run_bigdiff),
         "trees" => runner::drive("trees", prop, crate::unit::tree_strategy(), cases, seed, crate::unit::run_tree),
         "revs" => runner::drive("revs", prop, crate::unit::rev_strategy(), cases, seed, crate::unit::run_rev),
         "tree-exhaustive" => crate::unit::tree_exhaustive(tier == "thorough", _shard, _nshards),
         "merge-exhaustive" => crate::unit::merge_exhaustive(tier == "thorough", _shard, _nshards),
         "diff-exhaustive" => crate::unit::diff_exhaustive(tier == "thorough", _shard, _nshards),
+        "stacks" => runner::drive("stacks", prop, crate::c11::strategy(), cases, seed, crate::c11::run),
         "deep" => crate::c03::run(),
         "dual" => runner::drive("dual", prop, crate::c07::strategy(), cases, seed, crate::c07::run),
         "twins" => runner::drive("twins", prop, crate::c19::strategy(), cases, seed, crate::c19::run),
@@ -216,6 +219,10 @@ pub fn replay_part(prop: &str, part: &str, case: &Value) -> Option<(String, Stri
             std::env::remove_var("MELDA_DATA_CACHE_CAP");
             r
         }
+        "diff-large" => {
+            let case: crate::unit::BigDiffCase = serde_json::from_value(case.clone()).ok()?;
+            runner::replay(prop, &case, 1, crate::unit::run_bigdiff)
+        }
         "trees" => {
             let case: crate::unit::TreeCase = serde_json::from_value(case.clone()).ok()?;
             runner::replay(prop, &case, 1, crate::unit::run_tree)
@@ -223,6 +230,10 @@ pub fn replay_part(prop: &str, part: &str, case: &Value) -> Option<(String, Stri
         "revs" => {
             let case: crate::unit::RevCase = serde_json::from_value(case.clone()).ok()?;
             runner::replay(prop, &case, 1, crate::unit::run_rev)
+        }
+        "stacks" => {
+            let case: crate::c11::StackCase = serde_json::from_value(case.clone()).ok()?;
+            runner::replay(prop, &case, 3, crate::c11::run)
         }
         "deep" => crate::c03::run().violation.map(|v| (v.prop, v.msg, v.log)),
         "dual" => {
